@@ -59,7 +59,7 @@ def _version(draw, layout, contest_ids):
 def _session(draw, layout, idx):
     tab, batch = draw(st.integers(1, 3)), draw(st.integers(1, 3))
     obf = draw(st.integers(0, 4)) == 0
-    rec = idx + 1
+    rec = (idx + 1) * draw(st.sampled_from([1, 1, 1, 10, 100]))   # record numbers such as 10, 20, 300 occur too
     s = {"TabulatorId": tab, "BatchId": batch, "RecordId": "X" if obf else rec, "CountingGroupId": draw(st.integers(1, 3)),
          "ImageMask": f"D:\\\\NAS\\\\Results\\\\Tabulator{tab:05d}\\\\Batch{batch:03d}\\\\Images\\\\{tab:05d}_{batch:05d}_{rec:06d}*.*",
          "SessionType": "ScannedVote"}
